@@ -720,7 +720,9 @@ def parse_iso(value):
             ).replace(tzinfo=None)
 
         if hasattr(value, "to_pydatetime"):
-            return value.to_pydatetime()
+            # pandas timestamps: handled like the native date-time they convert to
+            value = value.to_pydatetime()
+            input_type = type(value)
 
         if input_type == datetime.datetime:
             return value.replace(microsecond=0)
